@@ -146,6 +146,9 @@ type Prop struct {
 	Exhaustive func(tier string) bool
 	// FreshProcessPerCase: every case runs in its own child (package-level state must start clean).
 	CasesPerProcess int
+	// CrashInconclusive: a dying or hanging child makes the run inconclusive instead of violated
+	// (for properties whose statement says nothing about totality).
+	CrashInconclusive bool
 }
 
 var registry = map[string]*Prop{}
